@@ -397,10 +397,7 @@ Proof.
     (rewrite check_ok by (rewrite lenN_head; lia)); cbn [obind]; ids;
     rewrite lenN_head;
     (destruct (8 + lenN (enc_wide s ++ tail) <? 8) eqn:E; [lia|]);
-    rewrite head_skip; unfold wide_str_chk;
-    (destruct (lenN (enc_wide s ++ tail) <? 4) eqn:E4;
-      [unfold enc_wide, u32_le in E4; rewrite <- app_assoc in E4; cbn [app] in E4;
-       rewrite !lenN_cons in E4; lia|]);
+    rewrite head_skip;
     (rewrite wide_str_roundtrip; [reflexivity|apply forallb_scalar, Hs|unfold U32MAX; lia]).
 Qed.
 
@@ -574,11 +571,11 @@ Proof.
     try apply clean_err; try apply clean_ok; congruence.
 Qed.
 
-Lemma wide_str_chk_clean : forall b, clean (wide_str_chk b).
+Lemma wide_str_clean : forall b, clean (wide_str b).
 Proof.
-  intros b. unfold wide_str_chk. destruct (lenN b <? 4) eqn:E; [apply clean_err|].
-  unfold wide_str, read_u32_le.
-  destruct b as [|b0 [|b1 [|b2 [|b3 b]]]]; try (unfold lenN in E; cbn [length] in E; lia).
+  intros b. unfold wide_str. destruct (N.of_nat (length b) <? 4) eqn:E; [apply clean_err|].
+  unfold read_u32_le.
+  destruct b as [|b0 [|b1 [|b2 [|b3 b]]]]; try (cbn [length] in E; lia).
   cbn [obind].
   match goal with |- context [if ?c then _ else _] => destruct c end;
     [apply clean_err|apply clean_ok].
@@ -797,11 +794,11 @@ Proof.
            | |- context [if ?c then _ else _] => destruct c
            end; cbn [obind]; split; discriminate.
   - (* inline string *)
-    destruct (wide_str_chk_clean (skipn 8 b)) as [W1 W2].
-    destruct (wide_str_chk (skipn 8 b)); cbn [obind]; split; try discriminate; congruence.
+    destruct (wide_str_clean (skipn 8 b)) as [W1 W2].
+    destruct (wide_str (skipn 8 b)); cbn [obind]; split; try discriminate; congruence.
   - destruct (nthN (e_strings en) (rd 4 8 b)); split; discriminate.
-  - destruct (wide_str_chk_clean (skipn 8 b)) as [W1 W2].
-    destruct (wide_str_chk (skipn 8 b)); cbn [obind]; split; try discriminate; congruence.
+  - destruct (wide_str_clean (skipn 8 b)) as [W1 W2].
+    destruct (wide_str (skipn 8 b)); cbn [obind]; split; try discriminate; congruence.
   - unfold parse_cerr.
     repeat match goal with
            | |- context [if ?c then _ else _] => destruct c
@@ -1429,10 +1426,7 @@ Proof.
     unfold enc_sst_item at 1. cbn [fst snd].
     rewrite nsb_found by exact Hf. cbn [obind fst snd].
     rewrite check_ok by (cbn [app]; rewrite lenN_cons; lia). cbn [obind].
-    cbn [app]. rewrite <- app_assoc. unfold wide_str_chk.
-    match goal with |- context [lenN ?l <? 4] => destruct (lenN l <? 4) eqn:E4 end.
-    { unfold enc_wide, u32_le in E4. rewrite <- app_assoc in E4. cbn [app] in E4.
-      rewrite !lenN_cons in E4. lia. }
+    cbn [app]. rewrite <- app_assoc.
     rewrite wide_str_roundtrip; [|apply forallb_scalar, Hs|unfold U32MAX; lia].
     cbn [obind fst snd].
     replace (1 + lenN items - 1) with (lenN items) by lia.
@@ -1668,8 +1662,8 @@ Proof.
   apply nsb_ok in E1 as [Hr Hl].
   unfold check_len. destruct (l <? 1) eqn:E; cbn [obind]; [apply clean_err|].
   destruct b as [|x tl]; [rewrite lenN_nil in Hl; lia|].
-  destruct (wide_str_chk_clean tl) as [W1 W2].
-  destruct (wide_str_chk tl) as [w| | |]; cbn [obind]; try apply clean_err; try congruence.
+  destruct (wide_str_clean tl) as [W1 W2].
+  destruct (wide_str tl) as [w| | |]; cbn [obind]; try apply clean_err; try congruence.
   destruct (IH (count - 1) r (x :: tl) ltac:(lia)) as [I1 I2].
   destruct (sst_items f (count - 1) r (x :: tl)); cbn [obind];
     try apply clean_err; try apply clean_ok; congruence.
